@@ -96,8 +96,9 @@ def run_impl_raw(graph, inputs, intermediate=None):
     shared = {}
     _NOTHING.clear()
 
-    def mkcb(k, beh):
-        def cb(event, ctx):
+    def mkcb(k0, beh):
+        def cb(event, ctx, kw=None):
+            k = kw["pos"] if kw else k0        # one function object may serve several positions (README: **kwargs)
             n = event["ts"]
             log.append([0, k, n])
             if beh == "Pass":
@@ -132,8 +133,27 @@ def run_impl_raw(graph, inputs, intermediate=None):
             if beh == "Barrier":
                 return barrier.pipeline_barrier(event, ctx)
             raise ValueError(beh)
-        cb.__name__ = "pipeline_barrier" if beh == "Barrier" else f"s{k}_{beh}"
+        cb.__name__ = "pipeline_barrier" if beh == "Barrier" else f"s{k0}_{beh}"
         return cb
+
+    if len(inputs) % 3 == 1:
+        # every third case: an earlier processor of the same process stopped in the middle (a callback raised before the
+        # final drain); the stages registered on THIS processor are the whole pipeline nevertheless
+        def dup0(event, ctx):
+            return [event, event]
+
+        def boom(event, ctx):
+            raise RuntimeError("stage failed")
+        names0 = [{"dup0": True}, {"boom": True}]
+        p0 = processing.EventProcessor(profile=StageProfile({"stages": [dict(d) for d in names0]},
+                                                            {"stages": [dict(d) for d in names0]}))
+        p0.register_stage(callback=dup0, context=None)
+        p0.register_stage(callback=boom, context=None)
+        try:
+            engine.Engine([ev(7)], p0, None).run()
+        except RuntimeError:
+            pass
+        del p0
 
     bctx = barrier._main_barrier_context
     bctx.drain()                       # a fresh process starts with an empty hold
@@ -145,18 +165,29 @@ def run_impl_raw(graph, inputs, intermediate=None):
     bctx.drain = rec_drain
     try:
         cbs = [mkcb(k + 1, b) for k, (b, _) in enumerate(graph)]
+        # every other case: neighbouring positions with the same behaviour on the same context are registered with ONE
+        # function object and the position passed as a keyword argument (a stage callback registered twice in a row)
+        kws = [None] * len(cbs)
+        if sum(inputs) % 2 == 0:
+            for k in range(1, len(graph)):
+                if graph[k] == graph[k - 1] and graph[k][0] != "Barrier":
+                    cbs[k] = cbs[k - 1]
+                    kws[k - 1], kws[k] = kws[k - 1] or {"pos": k}, {"pos": k + 1}
         names = [{c.__name__: True} for c in cbs] + [{"zz_never_registered": True}]
         prof = StageProfile({"stages": [dict(d) for d in names]}, {"stages": [dict(d) for d in names]})
         proc = processing.EventProcessor(profile=prof, intermediate=intermediate)
         cells = {}
-        for cb, (b, c) in zip(cbs, graph):
+        for cb, (b, c), kw in zip(cbs, graph, kws):
             if b == "Barrier":
                 ctx = bctx
             else:
                 if c not in cells:
                     cells[c] = Ctx(c, rev=(b == "HoldRev"))
                 ctx = cells[c]
-            proc.register_stage(callback=cb, context=ctx)
+            if kw:
+                proc.register_stage(callback=cb, context=ctx, **kw)
+            else:
+                proc.register_stage(callback=cb, context=ctx)
         out = []
 
         class Exp:
@@ -251,6 +282,20 @@ def assign_cells(behs, rng=None):
     return g
 
 
+STATELESS = {"Pass", "DropAll", "PassShared", "DropShared", "Dup", "Expand", "DropOdd"}
+
+
+def share_adjacent(g):
+    """the same graph with neighbouring equal stateless stages on ONE context (the driver then registers them with one
+    function object as well: a callback registered twice in a row); None if there is no such neighbour"""
+    out, changed = [], False
+    for k, (b, c) in enumerate(g):
+        if k and b in STATELESS and out[-1][0] == b:
+            c, changed = out[-1][1], True
+        out.append((b, c))
+    return out if changed else None
+
+
 def gen_cases(ctx):
     cases = []
     maxlen = ctx.pick(3, 4)
@@ -260,6 +305,10 @@ def gen_cases(ctx):
             g = assign_cells(behs)
             for i in ins:
                 cases.append((g, i, False))
+            g2 = share_adjacent(g)
+            if g2 is not None:
+                for i in ins:
+                    cases.append((g2, i, False))
     n_exh = len(cases)
     r = ctx.rng
     for _ in range(ctx.pick(1500, 40000)):
@@ -272,6 +321,8 @@ def gen_cases(ctx):
         while sum(b in ("Dup", "Expand") for b in behs) > 3:
             behs[[k for k, b in enumerate(behs) if b in ("Dup", "Expand")][0]] = r.choice(["Pass", "DropOdd", "Count"])
         g = assign_cells(behs, r)
+        if r.random() < 0.5:
+            g = share_adjacent(g) or g
         i = [r.randint(-3, 9) for _ in range(r.randint(0, 20))]
         cases.append((g, i, r.random() < 0.1))
     return cases, n_exh
@@ -384,6 +435,7 @@ def search(ctx, res, broken):
             break
         behs = [r.choice(IMPL_BEHS) for _ in range(r.randint(1, 6))]
         g = assign_cells(behs, r)
+        g = share_adjacent(g) or g
         i = [r.randint(-3, 9) for _ in range(r.randint(0, 8))]
         if run_impl(g, i) != ref_run(g, i):
             return [shrink({"input": {"graph": g, "events": i},
